@@ -392,7 +392,12 @@ pub fn verif_send_best_move_to_gui(board: &BoardState) {
 pub fn read_from_gui() -> String {
     let stdin = io::stdin();
     let mut buffer = String::new();
-    stdin.lock().read_line(&mut buffer).unwrap();
+    let bytes_read = stdin.lock().read_line(&mut buffer).unwrap();
+    if bytes_read == 0 {
+        // end of input, the GUI is gone and there is nothing left to serve
+        info!("ENGINE << end of input, exiting");
+        process::exit(0);
+    }
     buffer = clean_input(&buffer);
     info!("ENGINE << {}", buffer);
     buffer
